@@ -98,8 +98,7 @@ func Build(p, q *big.Int, params *gabikeys.SystemParameters, nbases int, withRev
 		// deterministic revocation material: an embedded P-256 key chosen by the seed, G and H
 		// derived like the other bases (GenerateRevocationKeypair would draw all of it randomly,
 		// which would make stored documents meaningless in another process)
-		h := sha256.Sum256([]byte(seed + "|ecdsa"))
-		der, err := base64.StdEncoding.DecodeString(vfh.ECDSAKeys[int(h[0])%len(vfh.ECDSAKeys)])
+		der, err := base64.StdEncoding.DecodeString(vfh.ECDSAKeys[int(counter)%len(vfh.ECDSAKeys)])
 		if err != nil {
 			panic(err)
 		}
